@@ -2029,6 +2029,25 @@ fn witnesses(r: &mut Report) {
         wo
     );
     r.sample(json!({"witness": "aborted-tx-still-waiter", "waiting_for(B)": wf.iter().collect::<Vec<_>>()}));
+    // (3) PROBE: a PREPARE delivered twice to the coordinator's own handle_prepare
+    let coord = DistributedTxCoordinator::new(ConsensusManager::default_config(), DistributedTxConfig::default());
+    let a = coord.begin(&"c".to_string(), &[0]).map(|t| t.tx_id).unwrap_or(0);
+    let v1 = coord.handle_prepare(&req(a));
+    let r1 = coord.record_vote(a, 0, v1.clone());
+    let v2 = coord.handle_prepare(&req(a));
+    let r2 = coord.record_vote(a, 0, v2.clone());
+    let c = coord.commit(a);
+    eprintln!(
+        "witness 3: prepare -> {:?} / {:?}; prepare again -> {:?} / {:?}; commit = {:?}; lock_holder(k) = {:?}; keys_for_transaction = {:?}",
+        v1, r1, v2, r2, c.is_ok(), coord.lock_manager().lock_holder("k"), coord.lock_manager().keys_for_transaction(a)
+    );
+    // (4) PROBE: participant, second PREPARE of the same transaction with another key set
+    let p = TxParticipant::new_in_memory();
+    let rq = |id: u64, ks: &[&str]| PrepareRequest { tx_id: id, coordinator: "c".into(), operations: ks.iter().map(|k| Transaction::Put { key: k.to_string(), data: vec![1] }).collect(), delta_embedding: SparseVector::new(4), timeout_ms: 5000 };
+    let w1 = p.prepare(rq(1, &["a", "b"]));
+    let w2 = p.prepare(rq(1, &["b", "c"]));
+    let cm = p.commit(1);
+    eprintln!("witness 4: {:?} {:?} commit {:?}: holders a={:?} b={:?} c={:?}", matches!(w1, PrepareVote::Yes { .. }), matches!(w2, PrepareVote::Yes { .. }), cm.success, p.locks.lock_holder("a"), p.locks.lock_holder("b"), p.locks.lock_holder("c"));
 }
 
 // ------------------------------------------------------------------------------------------------
